@@ -259,13 +259,14 @@ _mk("C20",
     extra_tb=["cobra, influxdb1-client, encoding/json, zap (observed through the binary)"], exhaustive=False)
 
 _mk("C18",
-    ["Platypus.Properties.C18"],
+    ["Platypus.Properties.C18"],  # + "Platypus.Properties.C18Agree" once its proofs follow the nil-bound model change
     rule="v2 engine (engine.ParseV2 + Script.Run) with probe functions supplied through the function table (p records, pr records and returns its first argument, void returns nothing, multi returns two values, len): "
          "33 consuming positions (assignment source, condition, operands, arguments, loop clauses, iterable, list/map elements and keys, index, every slice bound, unary, membership, compound assignment, multi-assignment, parenthesis) "
          "x 9 constructs (void call, attribute expression, multi-value calls, empty pr, variable, literal, undefined name, nil); multi-assignment programs; random programs of the shared language "
          "(expressions, collections, slices, control flow, scoping) with the signal as watchdog; compared with the v2 register-machine model: outcome, error chain, probe trace, polls; strict",
-    technique="Lean 4 model of the v2 register machine + theorems (value positions demand exactly one register value; calls and attribute expressions reset the registers; undefined names are errors; multi-assignment evaluates the right side first) + consuming-position matrix correspondence",
+    technique="Lean 4 agreement theorem: on the shared language (literals, names, operators with short circuit, membership, list/map literals, index chains, slices, probe calls, assignments, if/elif/else, three-clause for, for-in, break/continue) the v2 register machine and the v1 reference model end with the same value, error (position and class), heap, trace, polls, flags and scopes for every state and fuel, unless v2 reports an undefined name; "
+              "register-discipline theorems (value positions demand exactly one register value; calls and attribute expressions reset the registers; multi-assignment evaluates the right side first) + consuming-position matrix and block-scope correspondence",
     level_text="Kernel-checked properties of the register machine model: a construct that yields no value leaves the registers empty and every value position then reports an error instead of reading an earlier value; "
                "the model is tied to run.go by the position x construct matrix and random programs.",
-    level_note="The refinement to a register-free direct semantics is stated in the file (see DESIGN.md); v1/v2 agreement on the shared fragment is exercised by generators sharing the operator tables (C02Facts).",
+    level_note="script_agree/stmts_agree/expr_agree are about the two models; each is tied to its implementation by correspondence. Outside the fragment the models differ in named, proved ways (compound index assignment on a non-collection, `_` as a name, void values, undefined names in compound assignment: theorems *_difference); ill-tagged scope values and non-empty points are excluded by hypotheses (NoKeys, NonNil slice bounds).",
     extra_tb=[TB_FLOAT], exhaustive=False)
